@@ -185,6 +185,8 @@ def run_engine(engine: str, case: Dict[str, Any]) -> Dict[str, Any]:
             kind = "append-schema"
         elif "mloda_right_index already exists" in msg:
             kind = "right-index-exists"
+        elif isinstance(e, KeyError) or "No match or multiple matches for key field" in msg:
+            kind = "missing-key-column"
         else:
             kind = f"error:{type(e).__name__}:{msg[:160]}"
         return {"err": kind}
@@ -352,7 +354,7 @@ def check_cases(ctx: Ctx, suite: str, cases: List[Dict[str, Any]], engines: Tupl
     outs = ctx.lean.batch(reqs + spec_reqs)
     for (eng, case, got), o in zip(pend, outs[: len(reqs)]):
         # ---- model of the engine vs the engine: exact rows (present entries incl. nulls, names), up to row / column order
-        if eng == "pa":
+        if eng in ("pa", "pd"):
             model = {"err": _arrow_err_kind(o["err"])} if "err" in o else {"rows": exact_bag(lean_rows(o["ok"]))}
         else:
             model = {"rows": exact_bag(lean_rows(o))} if isinstance(o, list) else {"driver": o}
@@ -399,6 +401,8 @@ def _arrow_err_kind(msg: str) -> str:
         return "append-schema"
     if "mloda_right_index already exists" in msg:
         return "right-index-exists"
+    if "KeyError" in msg or "No match or multiple matches for key field" in msg:
+        return "missing-key-column"
     return "error:" + msg
 
 
